@@ -7,6 +7,7 @@ CONSTANTS
   MaxOut = 2
   GenRot = FALSE
   GenBack = "first"
+  GenSorted = FALSE
   MaxCtr = 1
   LoadCap = 2
   MaxReq = 4
